@@ -12,7 +12,9 @@
     Proved here (closed, for every oracle, every string / continuation): the LEXICAL RUNG.
     (a) the renderings of comments, PIs and character references of Spec/Infoset.v are read back by
         the recognisers of Spec/XmlWF.v ([render_*_wf], [char_ref_roundtrip]); attribute-value literals
-        are read back by [p_AttValue] and their normalized value is independent of the oracle;
+        are read back by [p_AttValue] and their normalized value is independent of the oracle; character
+        data (literal / references / CDATA sections in any mixture) is read back by [p_content] with the
+        characters of the abstract text;
     (b) what the specification recognises, the REGENERATED grammar of the real parser accepts with the
         same rest ([*_complete]);
     (c) hence the real productions accept every rendering ([parser_accepts_rendered_*]).
@@ -55,6 +57,17 @@ Theorem att_value_does_not_depend_on_choices : forall f en q c p v i, quote q ->
   av_value (S (S f)) en (items_pieces q c p i v) = av_value (S (S f)) en (att_pieces v).
 Proof. exact att_value_choice_independent. Qed.
 
+(** character data: whatever mixture of literal characters, decimal / hexadecimal character references,
+    predefined entity references and (possibly empty) CDATA sections the oracle chose, [p_content]
+    reads the rendering back as text-like items whose characters are the abstract text, and goes
+    on with what follows (markup, a reference, or the end) *)
+Theorem text_is_character_data : forall c p f i prev s, all_chars s = true -> length s <= f ->
+  exists items n, chars_of items = s /\
+    forall fuel T, follow_ok T ->
+      p_content (n + fuel) (text_chars f c p i prev s ++ T) =
+      bind (p_content fuel T) (fun '(l, r) => Some (items ++ l, r)).
+Proof. exact text_reads_back. Qed.
+
 (** ** (b) *)
 Theorem comment_complete : forall s r, spec_comment s = Some r -> rest_of (run G_xml R nt_comment s) = Some r.
 Proof. intros s r H. now rewrite comment_language. Qed.
@@ -84,5 +97,6 @@ Print Assumptions render_pi_is_pi.
 Print Assumptions char_ref_reads_back.
 Print Assumptions att_literal_is_attvalue.
 Print Assumptions att_value_does_not_depend_on_choices.
+Print Assumptions text_is_character_data.
 Print Assumptions parser_accepts_rendered_comment.
 Print Assumptions parser_accepts_rendered_pi.
